@@ -5,6 +5,7 @@
 mod cmp;
 mod engine;
 mod entropy;
+mod faults;
 mod gen;
 mod model;
 mod props;
@@ -17,9 +18,50 @@ use std::path::PathBuf;
 
 use engine::{Ctx, Property, Tier};
 
+/// The library under test prints to stdout/stderr on some paths (cte.rs, rennrenco2.rs, tmeta.rs).
+/// The simulator therefore moves its own stdout to a private descriptor and points fds 1 and 2 of
+/// the process at /dev/null before any SUT code runs; `say!` writes to the private descriptor.
+static REAL_STDOUT: std::sync::atomic::AtomicI32 = std::sync::atomic::AtomicI32::new(1);
+
+pub fn silence_sut_output() {
+    unsafe {
+        let saved = libc::dup(1);
+        if saved >= 0 {
+            libc::fcntl(saved, libc::F_SETFD, libc::FD_CLOEXEC);
+            REAL_STDOUT.store(saved, std::sync::atomic::Ordering::SeqCst);
+            let null = libc::open(b"/dev/null\0".as_ptr() as *const libc::c_char, libc::O_WRONLY);
+            if null >= 0 {
+                libc::dup2(null, 1);
+                libc::dup2(null, 2);
+                libc::close(null);
+            }
+        }
+    }
+}
+
+pub fn say_str(s: &str) {
+    let fd = REAL_STDOUT.load(std::sync::atomic::Ordering::SeqCst);
+    let mut buf = s.as_bytes();
+    while !buf.is_empty() {
+        let r = unsafe { libc::write(fd, buf.as_ptr() as *const libc::c_void, buf.len()) };
+        if r <= 0 {
+            break;
+        }
+        buf = &buf[r as usize..];
+    }
+}
+
+#[macro_export]
+macro_rules! say {
+    ($($arg:tt)*) => {{
+        let mut s = format!($($arg)*);
+        s.push('\n');
+        $crate::say_str(&s);
+    }};
+}
+
 pub fn harness_error(msg: &str) -> ! {
-    eprintln!("HARNESS-ERROR: {}", msg);
-    println!("HARNESS-ERROR: {}", msg);
+    say!("HARNESS-ERROR: {}", msg);
     std::process::exit(2)
 }
 
@@ -158,7 +200,7 @@ fn dispatch<P: Property>(p: &P, a: &Args) -> i32 {
         "digest" => {
             // campaign digest only (determinism self-test)
             let r = engine::campaign(p, &ctx, a.workers, &extra);
-            println!("{:016x} runs={} violation={}", r.digest, r.runs, r.violation.is_some());
+            say!("{:016x} runs={} violation={}", r.digest, r.runs, r.violation.is_some());
             0
         }
         other => harness_error(&format!("unknown command {}", other)),
@@ -167,6 +209,7 @@ fn dispatch<P: Property>(p: &P, a: &Args) -> i32 {
 
 fn main() {
     let a = parse_args();
+    silence_sut_output();
     entropy::install_panic_hook();
     if let Err(e) = entropy::selftest() {
         harness_error(&format!("entropy seam self-test failed: {}", e));
@@ -176,6 +219,7 @@ fn main() {
         "C05" => dispatch(&props::c05::C05, &a),
         "C06" => dispatch(&props::c06::C06, &a),
         "C10" => dispatch(&props::c10::C10, &a),
+        "C16" => dispatch(&props::c16::C16, &a),
         other => harness_error(&format!("property {} has no check in this simulator", other)),
     };
     std::process::exit(code);
